@@ -73,6 +73,10 @@ def u_b_unphased(ctx):
         fr = modeb.Frame(mat=mat)
         _stat_obligations(e, tag, gm, dos, n, p)
         e.prove(tag + ":frame:genotypes-not-modified-by-the-statistics", fr.unchanged() and gm.mat is mat)
+        if n * p <= 2:
+            # the statistics describe the CURRENT allele calls: new calls written in place through the array that `.mat` hands out
+            mat[...] = barr.fresh("g2", (n, p), "int8", 0, 2)
+            _stat_obligations(e, tag + ":after-in-place-write", gm, [[mat[i, j] for j in range(p)] for i in range(n)], n, p)
         return "ok"
     modeb.run_shapes(ctx, "unphased", SHAPES_U if ctx.tier == "quick" else SHAPES_U + [(4, 2), (3, 3)], body)
 
@@ -91,6 +95,9 @@ def u_b_phased(ctx):
         for meth in ("tacount", "tafreq", "acount", "afreq", "afixed", "apoly", "maf", "gtcount", "gtfreq"):
             e.prove(tag + ":phased==unphased-projection:" + meth, modeb.eq(getattr(gm, meth)(), getattr(proj, meth)()))
         e.prove(tag + ":phased==unphased-projection:meh", modeb.close_scalar(gm.meh(), proj.meh()))
+        if n * p <= 2:
+            mat[...] = barr.fresh("h2", (2, n, p), "int8", 0, 1)
+            _stat_obligations(e, tag + ":after-in-place-write", gm, [[mat[0, i, j] + mat[1, i, j] for j in range(p)] for i in range(n)], n, p)
         return "ok"
     modeb.run_shapes(ctx, "phased", SHAPES_P if ctx.tier == "quick" else SHAPES_P + [(3, 2)], body)
 
